@@ -159,8 +159,10 @@ def get_id_pack(obj):
 
     So, check thy assumptions regarding the given object when creating `id_pack`.
     """
-    if hasattr(obj, '____id_pack__'):
-        # netrefs are handled first since __class__ is a descriptor
+    if inspect.ismemberdescriptor(getattr(type(obj), '____id_pack__', None)):
+        # netrefs are handled first since __class__ is a descriptor.  Only an object whose TYPE declares the
+        # slot is a netref; one that merely answers the name (through its own __getattr__, or a netref class
+        # itself, whose attribute is the slot descriptor) is an ordinary object with its own identity
         return obj.____id_pack__
     elif inspect.ismodule(obj) or getattr(obj, '__name__', None) == 'module':
         # TODO: not sure about this, need to enumerate cases in units
